@@ -1074,6 +1074,14 @@ impl HybSim {
         self.disk.set_hold(false);
         let _ = self.drain();
         self.sync_log();
+        // An operation that never resolved leaves foyer tasks parked in the runtime (a stalled reclaim, a flusher
+        // waiting for a clean block). Dropping the runtime cancels them on this thread, and cancelling a reclaim task
+        // re-enters the block manager (its drop handler takes the manager's state lock and spawns the next reclaim,
+        // which the shut-down runtime cancels at once - under the same lock): the harness would hang instead of
+        // reporting the stall it has already detected. Such a runtime is leaked instead.
+        if self.tasks.iter().any(|t| t.resolved_at.is_none()) {
+            std::mem::forget(self.rt.take());
+        }
         drop(self.rt.take());
         let versions = self.versions.lock().clone();
         HTrace {
